@@ -144,6 +144,15 @@ def simplify_test(e: ast.expr) -> ast.expr:
         return e
     if isinstance(e, ast.Call) and isinstance(e.func, ast.Name) and e.func.id == "bool" and len(e.args) == 1 and not e.keywords:
         return simplify_test(e.args[0])  # bool(x) in a test position
+    # constants left behind by substituting an argument into an inlined helper: their truth value / type is known
+    if isinstance(e, ast.Constant) and not isinstance(e.value, bool) and (e.value is None or isinstance(e.value, (int, str, float))):
+        return _loc(ast.Constant(value=bool(e.value)), e)  # type: ignore[return-value]
+    if isinstance(e, ast.Call) and isinstance(e.func, ast.Name) and e.func.id == "isinstance" and len(e.args) == 2 and not e.keywords \
+            and isinstance(e.args[0], ast.Constant) and e.args[0].value is not None:
+        ts_ = e.args[1].elts if isinstance(e.args[1], ast.Tuple) else [e.args[1]]
+        known_ = {"int": int, "str": str, "float": float, "bool": bool, "bytes": bytes}
+        if all(isinstance(t_, ast.Name) and t_.id in known_ for t_ in ts_):
+            return _loc(ast.Constant(value=isinstance(e.args[0].value, tuple(known_[t_.id] for t_ in ts_))), e)  # type: ignore[return-value]
     if isinstance(e, ast.IfExp):
         # boolean-valued conditional expressions in a test position
         t, a, b = e.test, e.body, e.orelse
@@ -272,11 +281,76 @@ class _ExprCanon(ast.NodeTransformer):
         node.ifs = [simplify_test(t) for t in node.ifs]
         return node
 
+    _fresh = [0]
+
+    @classmethod
+    def _apply(cls, fn: ast.expr, arg: ast.expr, at: ast.AST) -> ast.expr:
+        """The expression `fn(arg)` with the standard callable constructors and lambdas applied."""
+        call = _loc(ast.Call(func=fn, args=[arg], keywords=[]), at)
+        r = cls._functional(call)
+        return r if r is not None else call
+
+    @classmethod
+    def _functional(cls, node: ast.Call) -> Optional[ast.expr]:
+        """C8: applications of operator.methodcaller/attrgetter/itemgetter, functools.partial and lambdas; filter/map ->
+        generator expression; list(<genexp>) -> list comprehension."""
+        f = node.func
+        kind = _callable_ctor(f)
+        plain = not any(isinstance(a, ast.Starred) for a in node.args) and all(k.arg is not None for k in node.keywords)
+        if kind == "methodcaller" and len(node.args) == 1 and not node.keywords and plain and f.args and isinstance(f.args[0], ast.Constant) and isinstance(f.args[0].value, str):
+            return _loc(ast.Call(func=_loc(ast.Attribute(value=node.args[0], attr=f.args[0].value, ctx=ast.Load()), node), args=list(f.args[1:]), keywords=list(f.keywords)), node)
+        if kind == "attrgetter" and len(node.args) == 1 and not node.keywords and plain and len(f.args) == 1 and isinstance(f.args[0], ast.Constant) and isinstance(f.args[0].value, str):
+            e: ast.expr = node.args[0]
+            for part in f.args[0].value.split("."):
+                e = _loc(ast.Attribute(value=e, attr=part, ctx=ast.Load()), node)
+            return e
+        if kind == "itemgetter" and len(node.args) == 1 and not node.keywords and plain and len(f.args) == 1:
+            return _loc(ast.Subscript(value=node.args[0], slice=f.args[0], ctx=ast.Load()), node)
+        if kind == "partial" and f.args and not any(isinstance(a, ast.Starred) for a in f.args) and all(k.arg is not None for k in f.keywords):
+            later = {k.arg for k in node.keywords}
+            return _loc(ast.Call(func=f.args[0], args=list(f.args[1:]) + list(node.args), keywords=[k for k in f.keywords if k.arg not in later] + list(node.keywords)), node)
+        # (lambda x: body)(arg)  with a single plain parameter used at most once, or a trivially pure argument
+        if isinstance(f, ast.Lambda) and len(node.args) == 1 and not node.keywords and plain:
+            a = f.args
+            if len(a.args) == 1 and not (a.vararg or a.kwarg or a.kwonlyargs or a.defaults or a.posonlyargs):
+                x = a.args[0].arg
+                uses = [m for m in ast.walk(f.body) if isinstance(m, ast.Name) and m.id == x]
+                nested_bind = any(isinstance(m, (ast.Lambda, ast.comprehension)) for m in ast.walk(f.body))
+                if not nested_bind and (isinstance(node.args[0], (ast.Name, ast.Constant)) or len(uses) <= 1):
+                    arg = node.args[0]
+
+                    class Sub(ast.NodeTransformer):
+                        def visit_Name(self, n: ast.Name):
+                            return copy.deepcopy(arg) if n.id == x and isinstance(n.ctx, ast.Load) else n
+
+                    return Sub().visit(copy.deepcopy(f.body))
+        if isinstance(f, ast.Name) and f.id in ("filter", "map") and len(node.args) == 2 and not node.keywords and plain:
+            fn, it = node.args
+            if isinstance(fn, (ast.Name, ast.Attribute, ast.Lambda)) or _callable_ctor(fn) is not None or _const(fn, None):
+                cls._fresh[0] += 1
+                v = f"_x{cls._fresh[0]}"
+                ld = _loc(ast.Name(id=v, ctx=ast.Load()), node)
+                if f.id == "filter":
+                    cond = ld if _const(fn, None) else cls._apply(fn, ld, node)
+                    comp = ast.comprehension(target=_loc(ast.Name(id=v, ctx=ast.Store()), node), iter=it, ifs=[simplify_test(cond)], is_async=0)
+                    return _loc(ast.GeneratorExp(elt=_loc(ast.Name(id=v, ctx=ast.Load()), node), generators=[comp]), node)
+                if not _const(fn, None):
+                    comp = ast.comprehension(target=_loc(ast.Name(id=v, ctx=ast.Store()), node), iter=it, ifs=[], is_async=0)
+                    return _loc(ast.GeneratorExp(elt=cls._apply(fn, ld, node), generators=[comp]), node)
+        if isinstance(f, ast.Name) and f.id == "list" and len(node.args) == 1 and not node.keywords and isinstance(node.args[0], ast.GeneratorExp):
+            g = node.args[0]
+            return _loc(ast.ListComp(elt=g.elt, generators=g.generators), node)
+        return None
+
     def visit_Call(self, node: ast.Call):
         self.generic_visit(node)
         # dict(a=x, b=y) -> {'a': x, 'b': y}
         if isinstance(node.func, ast.Name) and node.func.id == "dict" and not node.args and node.keywords and all(k.arg is not None for k in node.keywords):
             return _loc(ast.Dict(keys=[ast.Constant(value=k.arg) for k in node.keywords], values=[k.value for k in node.keywords]), node)
+        if enabled("C8"):
+            r = self._functional(node)
+            if r is not None:
+                return r
         # list(filter(lambda x: c, it)) -> [x for x in it if c]
         if (
             enabled("C7")
@@ -462,6 +536,31 @@ class BlockCanon:
                     new_stmts, consumed = r
                     stmts[i : i + consumed] = new_stmts
                     continue
+                # for T in (A if c else B): BODY  ->  if c: for T in A: BODY  else: for T in B: BODY
+                if isinstance(st, ast.For) and not st.orelse and isinstance(st.iter, ast.IfExp) and is_pure(st.iter.test):
+                    ie_ = st.iter
+                    self.changed = True
+                    la_ = _loc(ast.For(target=copy.deepcopy(st.target), iter=ie_.body, body=copy.deepcopy(st.body), orelse=[]), st)
+                    lb_ = _loc(ast.For(target=st.target, iter=ie_.orelse, body=st.body, orelse=[]), st)
+                    stmts[i] = _loc(ast.If(test=simplify_test(ie_.test), body=[la_], orelse=[lb_]), st)  # type: ignore[assignment]
+                    continue
+                # for T in (e,): BODY  ->  BODY[T := e]     (one round; e a plain name; no break/continue; T not rebound)
+                if isinstance(st, ast.For) and not st.orelse and isinstance(st.iter, (ast.Tuple, ast.List)) and len(st.iter.elts) == 1 and isinstance(st.iter.elts[0], ast.Name) \
+                        and isinstance(st.target, ast.Name) and not any(isinstance(x, (ast.Break, ast.Continue)) for b_ in st.body for x in ast.walk(b_)) \
+                        and not any(isinstance(x, ast.Name) and x.id == st.target.id and isinstance(x.ctx, (ast.Store, ast.Del)) for b_ in st.body for x in ast.walk(b_)) \
+                        and not any(isinstance(x, FuncNode + (ast.Lambda,)) for b_ in st.body for x in ast.walk(b_)) \
+                        and not any(isinstance(x, ast.Name) and x.id == st.target.id for r_ in stmts[i + 1:] for x in ast.walk(r_)):
+                    tn_, en_ = st.target.id, st.iter.elts[0].id
+
+                    class _One(ast.NodeTransformer):
+                        def visit_Name(self, n: ast.Name):
+                            if n.id == tn_:
+                                n.id = en_
+                            return n
+
+                    self.changed = True
+                    stmts[i : i + 1] = [_One().visit(b_) for b_ in st.body]
+                    continue
                 # for i, T in enumerate(<genexp>, k): BODY  ->  i = k - 1; for T in <genexp>: i += 1; BODY   (then the genexp rule below)
                 if isinstance(st, ast.For) and not st.orelse and isinstance(st.iter, ast.Call) and isinstance(st.iter.func, ast.Name) and st.iter.func.id == "enumerate" \
                         and st.iter.args and isinstance(st.iter.args[0], ast.GeneratorExp) and isinstance(st.target, ast.Tuple) and len(st.target.elts) == 2 \
@@ -484,6 +583,20 @@ class BlockCanon:
                     tnames = [t.id for t in ast.walk(st.target) if isinstance(t, ast.Name)]
                     pre_: Optional[List[ast.stmt]] = None
                     if isinstance(st.target, ast.Name) and isinstance(g_.elt, ast.Name) and g_.elt.id == xname:
+                        used_ = {x.id for part in [gen_.iter] + list(gen_.ifs) for x in ast.walk(part) if isinstance(x, ast.Name)}
+                        if st.target.id != xname and st.target.id not in used_:
+                            # the generator's variable does not outlive it: call it what the loop calls it
+                            tn_ = st.target.id
+
+                            class _Ren(ast.NodeTransformer):
+                                def visit_Name(self, n: ast.Name):
+                                    if n.id == xname:
+                                        n.id = tn_
+                                    return n
+
+                            gen_.ifs = [_Ren().visit(t_) for t_ in gen_.ifs]
+                            gen_.target = _loc(ast.Name(id=tn_, ctx=ast.Store()), gen_.target)
+                            xname = tn_
                         pre_ = [] if st.target.id == xname else [_loc(ast.Assign(targets=[st.target], value=g_.elt), st)]  # type: ignore[list-item]
                     elif isinstance(st.target, ast.Tuple) and isinstance(g_.elt, ast.Tuple) and len(st.target.elts) == len(g_.elt.elts) \
                             and all(isinstance(t, ast.Name) for t in st.target.elts):
@@ -553,6 +666,16 @@ class BlockCanon:
             return st  # nested functions are canonicalised on their own
         if isinstance(st, ast.If):
             st.test = simplify_test(st.test)
+            if isinstance(st.test, ast.Constant) and isinstance(st.test.value, bool) and enabled("C2"):
+                # `if True: A else: B` (left behind by tail sinking): keep the live arm
+                live_ = st.body if st.test.value else st.orelse
+                self.changed = True
+                if not live_:
+                    return _loc(ast.Pass(), st)
+                if len(live_) == 1:
+                    return self.stmt(live_[0], tail)
+                st.test = _loc(ast.Constant(value=True), st.test)
+                st.body, st.orelse = live_, []
             st.body = self.block(st.body, tail)
             st.orelse = self.block(st.orelse, tail) if st.orelse else []
             if enabled("C2"):
@@ -567,6 +690,10 @@ class BlockCanon:
                     if pn is not None:
                         st.test, st.body, st.orelse = pn, st.orelse, st.body
                         self.changed = True
+                g = self._guarded_child_loop(st)
+                if g is not None:
+                    self.changed = True
+                    return g
             return st
         if isinstance(st, (ast.For, ast.AsyncFor)):
             st.body = self.block(st.body, "loop")
@@ -595,8 +722,58 @@ class BlockCanon:
             self.changed = True
         return st
 
+    # -- C2: `if x._children: for c in x._children[:]: B`  ->  `for c in x.children.copy(): B`
+    @staticmethod
+    def _guarded_child_loop(st: ast.If) -> Optional[ast.stmt]:
+        """The `children` property is `_children or []`: a loop over the (copied) raw list under a truthiness guard on
+        that same list is a loop over the (copied) property."""
+        if st.orelse or len(st.body) != 1 or not isinstance(st.body[0], ast.For) or st.body[0].orelse:
+            return None
+        test, rest = st.test, None
+        if isinstance(test, ast.BoolOp) and isinstance(test.op, ast.And) and len(test.values) >= 2:
+            rest, test = test.values[:-1], test.values[-1]
+        if isinstance(test, ast.Compare) and len(test.ops) == 1 and isinstance(test.ops[0], ast.IsNot) and _const(test.comparators[0], None):
+            test = test.left  # `x._children is not None` (the list is None or non-empty; an empty one is not iterated either)
+        if not (isinstance(test, ast.Attribute) and test.attr == "_children"):
+            return None
+        lp = st.body[0]
+        it, copied = lp.iter, False
+        if isinstance(it, ast.Subscript) and isinstance(it.slice, ast.Slice) and it.slice.lower is None and it.slice.upper is None and it.slice.step is None:
+            it, copied = it.value, True
+        elif isinstance(it, ast.Call) and isinstance(it.func, ast.Attribute) and it.func.attr == "copy" and not it.args:
+            it, copied = it.func.value, True
+        elif isinstance(it, ast.Call) and isinstance(it.func, ast.Name) and it.func.id in ("list", "tuple") and len(it.args) == 1 and not it.keywords:
+            it, copied = it.args[0], True
+        if not (isinstance(it, ast.Attribute) and it.attr == "_children" and ast.dump(it.value) == ast.dump(test.value)):
+            return None
+        new_it: ast.expr = _loc(ast.Attribute(value=it.value, attr="children", ctx=ast.Load()), lp.iter)
+        if copied:
+            new_it = _loc(ast.Call(func=_loc(ast.Attribute(value=new_it, attr="copy", ctx=ast.Load()), lp.iter), args=[], keywords=[]), lp.iter)
+        lp.iter = new_it
+        if rest:
+            cond = rest[0] if len(rest) == 1 else _loc(ast.BoolOp(op=ast.And(), values=list(rest)), st.test)
+            return _loc(ast.If(test=cond, body=[lp], orelse=[]), st)
+        return lp
+
     # -- C4
     def _lift_ifexp(self, st: ast.stmt) -> Optional[List[ast.stmt]]:
+        # f(.., A if c else B, ..)  as a statement / assigned value: the choice moves out when nothing effectful is evaluated before it
+        call = st.value if isinstance(st, (ast.Expr, ast.Assign, ast.Return)) and isinstance(getattr(st, "value", None), ast.Call) else None
+        if call is not None and is_pure(call.func) and not (isinstance(st, ast.Assign) and not (len(st.targets) == 1 and isinstance(st.targets[0], ast.Name))):
+            slots = [("a", j, a_) for j, a_ in enumerate(call.args)] + [("k", j, k_.value) for j, k_ in enumerate(call.keywords)]
+            for pos, (kind_, j, a_) in enumerate(slots):
+                if isinstance(a_, ast.IfExp) and is_pure(a_.test) and all(is_pure(x_) for _k, _j, x_ in slots[:pos]):
+                    def variant(val):
+                        c2 = copy.deepcopy(st)
+                        cc = c2.value
+                        if kind_ == "a":
+                            cc.args[j] = copy.deepcopy(val)
+                        else:
+                            cc.keywords[j].value = copy.deepcopy(val)
+                        return c2
+                    return [_loc(ast.If(test=simplify_test(copy.deepcopy(a_.test)), body=[variant(a_.body)], orelse=[variant(a_.orelse)]), st)]  # type: ignore[list-item]
+                if not is_pure(a_):
+                    break
         if isinstance(st, ast.Expr) and isinstance(st.value, ast.Yield) and isinstance(st.value.value, ast.IfExp):
             ie = st.value.value
             a = _loc(ast.Expr(value=_loc(ast.Yield(value=ie.body), st)), st)
@@ -657,7 +834,11 @@ class BlockCanon:
             return None
         v = st.targets[0].id
         c = st.value
-        if not (isinstance(c, ast.Call) and isinstance(c.func, ast.Name) and c.func.id == "next" and len(c.args) == 2 and _const(c.args[1], None) and isinstance(c.args[0], ast.GeneratorExp)):
+        if not (isinstance(c, ast.Call) and isinstance(c.func, ast.Name) and c.func.id == "next" and len(c.args) == 2 and isinstance(c.args[0], ast.GeneratorExp)):
+            return None
+        # default: None, or a sentinel constant (a module-level NAME_IN_CAPS that the scan itself cannot produce)
+        sentinel = c.args[1].id if isinstance(c.args[1], ast.Name) and c.args[1].id.upper() == c.args[1].id and not c.args[1].id.isdigit() else None
+        if not (_const(c.args[1], None) or sentinel is not None):
             return None
         g = c.args[0]
         if not (isinstance(nxt, ast.If) and not nxt.orelse):
@@ -670,9 +851,13 @@ class BlockCanon:
             if any(isinstance(x, ast.Name) and x.id == v for r_ in rest for x in ast.walk(r_)):
                 return None
         t = nxt.test
-        ok = (isinstance(t, ast.Compare) and len(t.ops) == 1 and isinstance(t.ops[0], ast.IsNot) and isinstance(t.left, ast.Name) and t.left.id == v and _const(t.comparators[0], None)) or (
-            isinstance(t, ast.Name) and t.id == v
-        )
+        if sentinel is not None:
+            ok = isinstance(t, ast.Compare) and len(t.ops) == 1 and isinstance(t.ops[0], ast.IsNot) and isinstance(t.left, ast.Name) and t.left.id == v \
+                and isinstance(t.comparators[0], ast.Name) and t.comparators[0].id == sentinel
+        else:
+            ok = (isinstance(t, ast.Compare) and len(t.ops) == 1 and isinstance(t.ops[0], ast.IsNot) and isinstance(t.left, ast.Name) and t.left.id == v and _const(t.comparators[0], None)) or (
+                isinstance(t, ast.Name) and t.id == v
+            )
         if not ok:
             return None
         if len(g.generators) > 1 and not term:
@@ -766,8 +951,22 @@ def is_pure(e: ast.AST) -> bool:
     if isinstance(e, ast.Tuple):
         return all(is_pure(v) for v in e.elts)
     if isinstance(e, ast.Call):
+        if _callable_ctor(e) is not None:
+            # methodcaller / attrgetter / itemgetter / partial only build a callable
+            return all(is_pure(a) for a in e.args) and all(is_pure(k.value) for k in e.keywords)
         return isinstance(e.func, ast.Name) and e.func.id in PURE_BUILTINS and not e.keywords and all(is_pure(a) for a in e.args)
+    if isinstance(e, ast.Lambda):
+        return True  # building a lambda evaluates nothing (defaults aside)
     return False
+
+
+def _callable_ctor(e: ast.AST) -> Optional[str]:
+    """'methodcaller' | 'attrgetter' | 'itemgetter' | 'partial' if e is a call of that standard-library constructor."""
+    if not isinstance(e, ast.Call):
+        return None
+    f = e.func
+    name = f.id if isinstance(f, ast.Name) else (f.attr if isinstance(f, ast.Attribute) and isinstance(f.value, ast.Name) and f.value.id in ("operator", "functools") else None)
+    return name if name in ("methodcaller", "attrgetter", "itemgetter", "partial") else None
 
 
 def is_pure_comp(e: ast.AST) -> bool:
@@ -1110,8 +1309,13 @@ class SingleUseInliner:
                     v, rhs = d.target.id, d.value
                 else:
                     continue
-                if v in params or stores.get(v, 0) != 1 or loads.get(v, 0) != 1:
+                if v in params:
                     continue
+                if stores.get(v, 0) != 1 or loads.get(v, 0) != 1:
+                    # several definitions, each one directly followed by its own single use (branches after tail sinking)
+                    k_ = stores.get(v, 0)
+                    if k_ < 2 or loads.get(v, 0) != k_ or self._adjacent_pairs(fn, v) != k_:
+                        continue
                 if any(isinstance(x, (ast.Yield, ast.YieldFrom, ast.Await, ast.NamedExpr, ast.Lambda)) for x in ast.walk(rhs)):
                     continue
                 if isinstance(rhs, (ast.List, ast.Dict, ast.Set, ast.ListComp, ast.DictComp, ast.SetComp, ast.Constant)) and not is_pure_comp(rhs):
@@ -1149,6 +1353,19 @@ class SingleUseInliner:
                 blk.pop(i)
                 return True
         return False
+
+    @classmethod
+    def _adjacent_pairs(cls, fn, v: str) -> int:
+        n = 0
+        for blk in cls._blocks(fn):
+            for i in range(len(blk) - 1):
+                d, u = blk[i], blk[i + 1]
+                tgt = d.targets[0] if isinstance(d, ast.Assign) and len(d.targets) == 1 else (d.target if isinstance(d, ast.AnnAssign) and d.value is not None else None)
+                if isinstance(tgt, ast.Name) and tgt.id == v and not any(isinstance(x, ast.Name) and x.id == v for x in ast.walk(d.value)):
+                    if sum(1 for x in ast.walk(u) if isinstance(x, ast.Name) and x.id == v and isinstance(x.ctx, ast.Load)) == 1 \
+                            and not any(isinstance(x, ast.Name) and x.id == v and not isinstance(x.ctx, ast.Load) for x in ast.walk(u)):
+                        n += 1
+        return n
 
     @staticmethod
     def _blocks(fn):
@@ -1649,6 +1866,228 @@ def _block_as_expr(body: List[ast.stmt], cont: Optional[ast.expr] = None) -> Opt
     return None
 
 
+# --------------------------------------------------------------------------- C9 tail sinking
+class TailSinker:
+    """C9: `if c: v = A [...] else: v = B [...]` followed by ONE simple statement S that consumes the locals the branches
+    chose  ->  S moves to the end of every branch (pure choices substituted).  It undoes "the branches only pick the
+    values, one action at the end" - and makes `x = A if c else B; S(x)`, the if/else spelling and the duplicated
+    spelling one form.  Side conditions: the If has an else on every level; every branch that can fall through assigns
+    every chosen local that S reads; those locals are read nowhere else in the function; S is an expression statement,
+    an assignment, a return or a yield."""
+
+    def __init__(self, fn) -> None:
+        self.fn = fn
+        self.changed = False
+
+    def run(self) -> None:
+        for _ in range(20):
+            if not self._one(self.fn.body):
+                break
+            self.changed = True
+
+    @staticmethod
+    def _leaves(st: ast.If) -> Optional[List[List[ast.stmt]]]:
+        out: List[List[ast.stmt]] = []
+        for blk in (st.body, st.orelse):
+            if not blk:
+                return None  # no else: a path without a choice
+            if len(blk) == 1 and isinstance(blk[0], ast.If):
+                sub = TailSinker._leaves(blk[0])
+                if sub is None:
+                    return None
+                out.extend(sub)
+            else:
+                out.append(blk)
+        return out
+
+    def _one(self, block: List[ast.stmt]) -> bool:
+        for i, st in enumerate(block):
+            if isinstance(st, FuncNode + (ast.ClassDef,)):
+                continue
+            for fname, val in ast.iter_fields(st):
+                if isinstance(val, list) and val and isinstance(val[0], ast.stmt):
+                    if self._one(val):
+                        return True
+                elif isinstance(val, list) and val and isinstance(val[0], ast.ExceptHandler):
+                    for h in val:
+                        if self._one(h.body):
+                            return True
+            if not isinstance(st, ast.If) or i + 1 >= len(block):
+                continue
+            S = block[i + 1]
+            if isinstance(S, ast.If):
+                # a following dispatch on what the branches chose (`if keep: ... else: ...`): small bodies only
+                if sum(1 for _x in ast.walk(S) if isinstance(_x, ast.stmt)) > 8 or any(isinstance(_x, (ast.For, ast.While, ast.Try, ast.With) + FuncNode) for _x in ast.walk(S)):
+                    continue
+                if not is_pure(S.test):
+                    continue
+            elif not isinstance(S, (ast.Expr, ast.Assign, ast.AugAssign, ast.AnnAssign, ast.Return)):
+                continue
+            if any(isinstance(x, (ast.Lambda, ast.NamedExpr)) for x in ast.walk(S)):
+                continue
+            leaves = self._leaves(st)
+            if not leaves or len(leaves) > 4:
+                continue
+            live = [lf for lf in leaves if not terminates(lf)]
+            if len(live) < 2:
+                continue
+
+            def chosen(lf: List[ast.stmt]) -> Dict[str, ast.stmt]:
+                d: Dict[str, ast.stmt] = {}
+                for s_ in lf:
+                    if isinstance(s_, ast.Assign) and len(s_.targets) == 1 and isinstance(s_.targets[0], ast.Name):
+                        d[s_.targets[0].id] = s_
+                    elif isinstance(s_, ast.AnnAssign) and isinstance(s_.target, ast.Name) and s_.value is not None:
+                        d[s_.target.id] = s_
+                return d
+
+            reads_S = {x.id for x in ast.walk(S.test if isinstance(S, ast.If) else S) if isinstance(x, ast.Name) and isinstance(x.ctx, ast.Load)}
+            writes_S = {x.id for x in ast.walk(S) if isinstance(x, ast.Name) and isinstance(x.ctx, (ast.Store, ast.Del))}
+            per = [chosen(lf) for lf in live]
+            V = set.intersection(*[set(d) for d in per]) & reads_S
+            # only top-level simple assignments of the leaf count, and nothing else in the If may bind them
+            if not V or V & writes_S:
+                continue
+            inside = {id(x) for x in ast.walk(st)} | {id(x) for x in ast.walk(S)}
+            params = _params(self.fn)
+            ok = not (V & params)
+            for x in ast.walk(self.fn):
+                if isinstance(x, ast.Name) and x.id in V and id(x) not in inside:
+                    ok = False
+                    break
+                if isinstance(x, (ast.Global, ast.Nonlocal)) and set(x.names) & V:
+                    ok = False
+                    break
+            # bindings of V inside the If other than the leaf-level assignments (loops, nested ifs, walrus ...)
+            leaf_assigns = {id(d[v]) for d in per for v in V}
+            for x in ast.walk(st):
+                if isinstance(x, ast.Name) and x.id in V and isinstance(x.ctx, (ast.Store, ast.Del)):
+                    holder = next((a_ for d in per for a_ in d.values() if any(x is t_ for t_ in ast.walk(a_))), None)
+                    if holder is None or id(holder) not in leaf_assigns:
+                        ok = False
+            # V read inside the If, between its choice and the end of the leaf, is fine; a read in a terminating leaf too
+            if not ok:
+                continue
+            for lf, d in zip(live, per):
+                Sc = copy.deepcopy(S)
+                # substitute the pure choices that are made in the trailing run of simple assignments
+                k = len(lf)
+                while k > 0 and isinstance(lf[k - 1], (ast.Assign, ast.AnnAssign)) and chosen([lf[k - 1]]):
+                    k -= 1
+                trailing = lf[k:]
+                drop: List[ast.stmt] = []
+                for j, a_ in enumerate(trailing):
+                    v = next(iter(chosen([a_])))
+                    E = a_.value  # type: ignore[attr-defined]
+                    if v not in V or not is_pure(E):
+                        continue
+                    later = trailing[j + 1:]
+                    e_names = {x.id for x in ast.walk(E) if isinstance(x, ast.Name)}
+                    heap = any(isinstance(x, (ast.Attribute, ast.Subscript)) for x in ast.walk(E))
+                    if any(next(iter(chosen([l_]))) in e_names or next(iter(chosen([l_]))) == v for l_ in later):
+                        continue
+                    if heap and any(isinstance(x, ast.Call) for l_ in later for x in ast.walk(l_)):
+                        continue
+                    if any(isinstance(x, ast.Name) and x.id == v for l_ in later for x in ast.walk(l_)):
+                        continue
+
+                    class _Sub(ast.NodeTransformer):
+                        def visit_Name(self, n: ast.Name):
+                            return copy.deepcopy(E) if n.id == v and isinstance(n.ctx, ast.Load) else n
+
+                    Sc = _Sub().visit(Sc)
+                    drop.append(a_)
+                lf[:] = [x for x in lf if not any(x is d_ for d_ in drop)] + [Sc]
+            del block[i + 1]
+            return True
+        return False
+
+
+# --------------------------------------------------------------------------- C9b live-range splitting
+class LiveRangeSplitter:
+    """C9b: a local that is assigned several times, each time by a plain `v = E` statement whose uses all follow it in
+    the same block (before the next assignment of v there) and none of whose assignments lies inside the range of
+    another, is really several independent locals: they get different names (v, v__2, v__3 ...), so that the
+    single-definition inliners (C5, C5b) see them.  (Branches that reuse one name for their own temporary; leaves after
+    tail sinking.)"""
+
+    def __init__(self, fn) -> None:
+        self.fn = fn
+        self.changed = False
+
+    def run(self) -> None:
+        fn = self.fn
+        params = _params(fn)
+        own = list(_own_nodes(fn))
+        own_ids = {id(n) for n in own}
+        stores: Dict[str, List[ast.Name]] = {}
+        loads: Dict[str, List[ast.Name]] = {}
+        bad: Set[str] = set(params)
+        for n in ast.walk(fn):
+            if isinstance(n, ast.Name):
+                (loads if isinstance(n.ctx, ast.Load) else stores).setdefault(n.id, []).append(n)
+                if id(n) not in own_ids:
+                    bad.add(n.id)  # touched by a nested function / lambda
+            elif isinstance(n, (ast.Global, ast.Nonlocal)):
+                bad.update(n.names)
+            elif isinstance(n, ast.ExceptHandler) and n.name:
+                bad.add(n.name)
+            elif isinstance(n, ast.arg):
+                bad.add(n.arg)
+        blocks = SingleUseInliner._blocks(fn)
+        for v, sts in stores.items():
+            if v in bad or len(sts) < 2 or v.startswith("_x"):
+                continue
+            defs: List[Tuple[List[ast.stmt], int]] = []
+            ok = True
+            for sn in sts:
+                where = None
+                for blk in blocks:
+                    for i, st in enumerate(blk):
+                        if isinstance(st, ast.Assign) and len(st.targets) == 1 and st.targets[0] is sn:
+                            where = (blk, i)
+                if where is None or any(isinstance(x, ast.Name) and x.id == v for x in ast.walk(where[0][where[1]].value)):
+                    ok = False
+                    break
+                defs.append(where)
+            if not ok:
+                continue
+            ranges: List[Set[int]] = []
+            for blk, i in defs:
+                end = len(blk)
+                for j in range(i + 1, len(blk)):
+                    if any(b2 is blk and i2 == j for b2, i2 in defs):
+                        end = j
+                        break
+                ids: Set[int] = set()
+                for st in blk[i + 1:end]:
+                    ids |= {id(x) for x in ast.walk(st)}
+                ranges.append(ids)
+            # no definition inside another one's range; every load inside exactly one range
+            if any(id(blk[i]) in r for (blk, i) in defs for r in ranges):
+                continue
+            owner: Dict[int, int] = {}
+            for ld in loads.get(v, []):
+                ks = [k for k, r in enumerate(ranges) if id(ld) in r]
+                if len(ks) != 1:
+                    ok = False
+                    break
+                owner[id(ld)] = ks[0]
+            if not ok:
+                continue
+            order = sorted(range(len(defs)), key=lambda k: (getattr(defs[k][0][defs[k][1]], "lineno", 0), k))
+            for rank, k in enumerate(order):
+                if rank == 0:
+                    continue
+                new = f"{v}__{rank + 1}"
+                blk, i = defs[k]
+                blk[i].targets[0].id = new  # type: ignore[attr-defined]
+                for ld in loads.get(v, []):
+                    if owner[id(ld)] == k:
+                        ld.id = new
+                self.changed = True
+
+
 # --------------------------------------------------------------------------- driver
 def _canon_function(fn, may_write, single_use: bool = True) -> bool:
     changed = False
@@ -1670,6 +2109,13 @@ def _canon_function(fn, may_write, single_use: bool = True) -> bool:
             si = SingleUseInliner(fn)
             si.run()
             round_changed |= si.changed
+        if enabled("C9") and single_use:
+            ts = TailSinker(fn)
+            ts.run()
+            round_changed |= ts.changed
+            ls = LiveRangeSplitter(fn)
+            ls.run()
+            round_changed |= ls.changed
         changed |= round_changed
         if not round_changed:
             break
